@@ -83,6 +83,23 @@ def candidate_values(rng, T, f, thorough):
     return out
 
 
+def action_argsets(rng, k):
+    if k["k"] == "const":
+        return [()]
+    if k["k"] == "volstep":
+        return [(), (0.5,), (1,), (2,), (5,), (1.0,), (2.0,), (5.0,), (True,), (False,), (3,), (0,), (-1,), (1.5,), (10,), (0.1,),
+                (float("nan"),), (rng.choice([1, 2, 5]) + 0.0,), (rng.uniform(-3, 8),)]
+    if k["k"] == "mem":
+        return [(), (None,), (1,), (40,), (rng.randint(1, 40),)]
+    if k["k"] == "scene":
+        return [(1,), (12,), ("3",), (rng.randint(1, 12),)]
+    if k["k"] == "enumarg":
+        return [(m,) for m in enum_class(k["enum"])] + [("Play",), (None,), (3,)]
+    if k["k"] == "fixedlen":
+        return [("7A85-1F2",), ("1234567",), ("123456789",), ("",), ("é" * 8,), ("x" * 64,)]
+    return []
+
+
 def expected_text(T, f, v):
     """independent canonical text for a valid value (None = no independent expectation here)"""
     if isinstance(v, enum.Enum):
@@ -95,6 +112,14 @@ def expected_text(T, f, v):
     if isinstance(v, int) and not isinstance(v, bool) and ks[0] in ("int", "intOrNone") and f["name"] not in c11.SPEC:
         return str(v)
     return None
+
+
+def wire_jobs(rng, thorough):
+    """end to end: the same reads / writes on a real subunit object on a real connection (reader + sender threads under the deterministic
+    scheduler), the device reporting values in between; the trace is replayed on the L3 model (harness/wire.py)"""
+    from .. import gen
+    T = core.tables()
+    return [(gen.subunit_wire(rng, T, writes=True), rng.randrange(10 ** 9), 0) for _ in range(20000 if thorough else 400)]
 
 
 def run(ctx: core.Ctx):
@@ -162,20 +187,7 @@ def run(ctx: core.Ctx):
             # action methods
             for a in c["actions"]:
                 k = a["kind"]
-                argsets = []
-                if k["k"] == "const":
-                    argsets = [()]
-                elif k["k"] == "volstep":
-                    argsets = [(), (0.5,), (1,), (2,), (5,), (1.0,), (2.0,), (5.0,), (True,), (False,), (3,), (0,), (-1,), (1.5,), (10,), (0.1,),
-                               (float("nan"),), (rng.choice([1, 2, 5]) + 0.0,), (rng.uniform(-3, 8),)]
-                elif k["k"] == "mem":
-                    argsets = [(), (None,), (1,), (40,), (rng.randint(1, 40),)]
-                elif k["k"] == "scene":
-                    argsets = [(1,), (12,), ("3",), (rng.randint(1, 12),)]
-                elif k["k"] == "enumarg":
-                    argsets = [(m,) for m in enum_class(k["enum"])] + [("Play",), (None,), (3,)]
-                elif k["k"] == "fixedlen":
-                    argsets = [("7A85-1F2",), ("1234567",), ("123456789",), ("",), ("é" * 8,), ("x" * 64,)]
+                argsets = action_argsets(rng, k)
                 for args in argsets:
                     r = S.act(idx, a["meth"], *args)
                     ctx.case((c["py"], a["meth"], repr(args)))
@@ -232,11 +244,16 @@ def run(ctx: core.Ctx):
         ctx.correspondence_broken("L3 assign/act model vs real descriptors and action methods", {"count": len(disagreements), "first": disagreements[0]})
     ctx.assumptions += ["the stub connection records put/get exactly as YncaConnection.put/get would enqueue them (wire path is C01's)",
                         "inputs the property leaves open (foreign enumeration members, float/bool to plain integer functions, numeric strings, non-str remote codes) are informational"]
+    from .. import b2check
+    b2check.run_b2(ctx, wire_jobs, ["C05w"], label="end-to-end writes on a real connection", accept=False)
     return ctx.finish()
 
 
 def replay(ctx, path):
     rp = json.load(open(path))["replay"]
+    if rp.get("path") == "b2":
+        from .. import b2check
+        return b2check.replay_b2(rp, ["C05w"])
     S = L3Session()
     i = S.new(rp["class"])
     import ynca.enums as En  # noqa: F401
